@@ -10,6 +10,14 @@ CHECKS = {
     technique="deterministic simulation: real bob CLI under a virtual-time event loop with seeded step completion order, over seeded edit histories; clean-build oracle by independent tree serialisation",
     text="Seeded edit histories of generated projects, each edit followed by an incremental build under a seeded schedule (-j1..4, develop/release); every package result is compared with a from-scratch build of the same state and repeated builds must execute nothing (observed at the subprocess seam). Sampling, not proof.",
     note="Generated step scripts are deterministic/idempotent by construction; weakly consumed variables are kept out of the transcripts (Bob documents that they do not trigger rebuilds)."),
+ "C03": dict(level="exploration", engine="env-perturbation", ref="5/C03",
+    technique="deterministic simulation of the id computation's environment: fresh interpreter per evaluation with harness-owned hash seed, recipe-directory listing order (os.walk seam), location, timestamps/creation order; golden ids of the shipped reference project",
+    text="All Variant-Ids and Build-Ids (with supplied source hashes) of generated projects must be identical across seeded perturbations of every nondeterminism source of the computation, under sandbox on/off, extra reaches and id-neutral edits; the shipped reference project must reproduce its recorded ids through the real CLI under the same perturbations.",
+    note="The id-neutral single edits are differential input testing riding on the harness (said so in DESIGN.md); the claim rests on the nondeterminism perturbation and the golden ids."),
+ "C04": dict(level="exploration", engine="history+clock", ref="5/C04",
+    technique="deterministic simulation: model-based history simulation with a simulated stat clock; graph computed with all caches warm (plus Bob's pkgck assertion) versus a cold copy with the in-memory memo disabled",
+    text="Along seeded edit histories (with reverts, clock jumps, -D overrides) the complete package graph dump per package path and the answers of fixed path queries must be identical between the warm project directory and a cache-free cold computation. Generated projects force the same recipe to be reached with identical environment but different inherited tools / conditional dependencies.",
+    note="The cold reference disables the memo by rebinding PackageMatcher.matches; sandbox-enabled graphs and layers are not exercised."),
  "C05": dict(level="fault_enumeration", engine="loopsim", ref="5/C05",
     technique="deterministic simulation with fault injection: script exit/kill at command k, Bob killed at numbered kill points (every state save, fs mutation, seam call), SIGINT at virtual time t; recovery compared with clean build",
     text="One to three aborted invocations (script failure, script+Bob kill, Bob kill at sim point k, SIGINT) followed by a fault-free build that must succeed, equal the clean build and leave a consistent state; enumeration cases try every kill point of the aborted invocation (thorough) or an evenly spaced sample (quick) from the same restored workspace.",
